@@ -13,6 +13,7 @@
 //! canonical reply that the model must reproduce.
 mod common;
 mod c20;
+mod macroh;
 mod serdeh;
 mod mapped;
 mod canon;
@@ -82,7 +83,11 @@ fn real_main() {
             if line.is_empty() || line.starts_with("//") {
                 continue;
             }
-            exec_line(line, &mut out);
+            if let Some(rest) = line.strip_prefix("macro ") {
+                if !macroh::exec_replay(rest, &mut out, workdir) { out.record(line, "bad-op", false); }
+            } else {
+                exec_line(line, &mut out);
+            }
             out.corpus_cases += 1;
         }
     }
@@ -94,6 +99,7 @@ fn real_main() {
             "C14" => ord::gen(&mut out, thorough),
             "C15" => ueq::gen(&mut out, thorough),
             "C11" => mapped::gen(&mut out, thorough),
+            "C19" => macroh::gen(&mut out, thorough, workdir),
             "C16" => serdeh::gen(&mut out, thorough, "C16"),
             "C17" => serdeh::gen(&mut out, thorough, "C17"),
             "C18" => serdeh::gen(&mut out, thorough, "C18"),
